@@ -646,7 +646,8 @@ def _fit_windows(
     fit_parameters: FitParameters,
 ) -> sc.Variable:
     windows = sc.empty(sizes={data.dim: len(center), 'range': 2}, unit=center.unit)
-    windows['range', 0] = center - width / 2
+    # The estimates and the width may have a different dtype than the windows.
+    windows['range', 0] = (center - width / 2).to(dtype=windows.dtype, copy=False)
     windows['range', 1] = np.nextafter(center.values + width.value / 2, np.inf)
 
     windows = _clip_to_data_range(data, windows)
